@@ -12,12 +12,12 @@ pub fn def() -> CheckDef {
         functions: &[
             "FiniteFunction::{new,compose,>>,identity,initial,to_initial,terminal,constant,inj0,inj1,inject0,inject1,coproduct,+,tensor,|,twist,transpose,cumulative_sum,injections,is_injective,coequalizer,coequalizer_universal,source,target,==}",
             "finite_function::coequalizer_universal",
-            "semifinite::compose_semifinite, &FiniteFunction >> &SemifiniteFunction",
+            "semifinite::compose_semifinite, &FiniteFunction >> &SemifiniteFunction", "SemifiniteArrow::{source,target,identity,compose}",
         ],
         bounds_quick: "tables of length <=3 over symbolic codomain sizes 0..=3 (composition: all four combinations of typed/mistyped decided by the solver); scalars a,b,x symbolic in 0..=3; coequalizer: parallel pairs of length <=3 over <=4 points; universal map: q of length <=4 onto <=3 classes",
         bounds_thorough: "lengths <=4, codomains 0..=4, coequalizer over <=5 points",
         jobs,
-        budget_s: (120, 2400),
+        budget_s: (120, 1500),
     }
 }
 
@@ -325,10 +325,50 @@ fn gen_surjection(n: usize, k: usize, name: &str) -> RawFF {
     RawFF { table, target: ci(k) }
 }
 
+fn oracle_semifinite_arrow(inp: &PV, out: &PV) -> T {
+    if out.is_panic() {
+        return tm::FALSE;
+    }
+    let (f, g, l) = (inp.at(0).ff(), inp.at(1).ff(), inp.at(2).ts());
+    let pointwise = |tab: &[T]| f.table.iter().map(|v| if tab.is_empty() { *v } else { tm::select(tab, *v) }).collect::<Vec<T>>();
+    let is = |o: &PV, tag: &str| matches!(o, PV::Tag(t, _) if t == tag);
+    let fin = |o: &PV, typed: T, tab: &[T], target: T| match o {
+        PV::None => tm::not(typed),
+        PV::Tag(t, r) if t == "Finite" => tm::and(vec![typed, ff_is(r[0].ff(), tab, target)]),
+        _ => tm::FALSE,
+    };
+    let semi = |o: &PV, typed: T, tab: &[T]| match o {
+        PV::None => tm::not(typed),
+        PV::Tag(t, r) if t == "Semifinite" => tm::and(vec![typed, all_eq(&r[0].ts(), tab)]),
+        _ => tm::FALSE,
+    };
+    let obj_is = |o: &PV, want: Option<T>| match (o.some(), want) {
+        (None, None) => tm::TRUE,
+        (Some(x), Some(w)) => tm::eq(x.t(), w),
+        _ => tm::FALSE,
+    };
+    let a = concretize(f.target) as usize;
+    tm::and(vec![
+        fin(out.at(0), tm::eq(f.target, ci(g.table.len())), &pointwise(&g.table), g.target),
+        semi(out.at(1), tm::eq(f.target, ci(l.len())), &pointwise(&l)),
+        // only a finite function can be pre-composed; identities on types do not compose
+        tm::bconst(matches!(out.at(2), PV::None) && matches!(out.at(3), PV::None) && matches!(out.at(4), PV::None)),
+        obj_is(out.at(5), Some(ci(f.table.len()))),
+        obj_is(out.at(6), Some(f.target)),
+        obj_is(out.at(7), Some(ci(l.len()))),
+        obj_is(out.at(8), None),
+        match out.at(9) {
+            PV::Tag(t, r) if t == "Finite" => ff_is(r[0].ff(), &iota(0, a), f.target),
+            _ => tm::FALSE,
+        },
+        tm::bconst(is(out.at(10), "Identity")),
+    ])
+}
+
 pub fn jobs(tier: Tier, _seed: u64) -> Vec<Job> {
     let per_job = Duration::from_secs(match tier {
         Tier::Quick => 60,
-        Tier::Thorough => 900,
+        Tier::Thorough => 600,
     });
     let cfg = base_cfg(tier);
     let m = match tier {
@@ -347,6 +387,15 @@ pub fn jobs(tier: Tier, _seed: u64) -> Vec<Job> {
                 c06_semifinite,
                 oracle_semifinite,
                 2
+            ));
+        }
+        for b in 0..=m {
+            cases.push(crate::case!(
+                format!("SemifiniteArrow |f|={} |g|=|labels|={}", a, b),
+                move || PV::List(vec![PV::FF(gen_ff_sym(a, m, "f")), PV::FF(gen_ff_sym(b, m, "g")), PV::of_ts(&gen_labels(b, "l"))]),
+                c06_semifinite_arrow,
+                oracle_semifinite_arrow,
+                11
             ));
         }
         cases.push(crate::case!(format!("unary ops |f|={}", a), move || PV::List(vec![PV::FF(gen_ff_sym(a, m, "f")), PV::T(gen_scalar("a", m))]), c06_unary, oracle_unary, 9));
